@@ -98,6 +98,11 @@ def enumerate_plans(crossings, seam_calls, njobs, mp, tier, bytes_written):
             if 0 <= nth < n:
                 for e in errs:
                     plans.append({'kind': 'fault', 'seam': seam, 'nth': nth, 'error': e})
+    # persistent failure of the sort at every temp location (the retry loop in sort_and_index must give up loudly)
+    n = seam_calls.get('pysam.sort', 0)
+    for first in sorted({0, max(0, n - 1)}):
+        if n:
+            plans.append({'kind': 'fault3', 'seam': 'pysam.sort', 'nth': first, 'error': 'SamtoolsError'})
     if mp:
         for t in range(njobs):
             for wk in ('exception', 'lost-before', 'lost-after'):
@@ -115,6 +120,8 @@ def _mode_with(mode, plan):
         m['crash'] = {'func': plan['func'], 'line': plan['line'], 'k': plan['k']}
     elif plan['kind'] == 'fault':
         m['faults'] = [{'seam': plan['seam'], 'nth': plan['nth'], 'error': plan['error']}]
+    elif plan['kind'] == 'fault3':
+        m['faults'] = [{'seam': plan['seam'], 'nth': plan['nth'] + i, 'error': plan['error']} for i in range(3)]
     elif plan['kind'] == 'worker':
         m['worker_faults'] = [{'task': plan['task'], 'kind': plan['wkind']}]
     elif plan['kind'] == 'fsize':
@@ -165,7 +172,7 @@ def execute(case):
         plans = case.get('plans')
         if plans is None:
             plans = enumerate_plans(crossings, bres.get('seam_calls', {}), len(bres.get('jobs', [])), mode.get('mp'), p.get('tier', 'quick'), bytes_written)
-        if case.get('slice'):
+        if case.get('slice') and case.get('plans') is None:     # slicing applies to the enumerated family only
             j, J = case['slice']
             plans = plans[j::J]
         stale_dir = None
@@ -244,6 +251,7 @@ def narrow(case, violation):
     """explicit single-fault case for minimisation / replay"""
     c = dict(case)
     c['plans'] = [violation['detail']['plan']]
+    c.pop('slice', None)
     return c
 
 
